@@ -25,6 +25,15 @@ CASES = [
     ('select with a length near 2^31 does not overflow', 'a = []; a resize 200; count (a select [150, 2147483520])', '50'),
     ('select with one parameter', 'count ([1,2,3] select [1])', '0'),
     ('select with a parameter of the wrong type', '{ [1,2,3] select [1, "x"] } except__ { }; 7', '7'),
+    ('select index', '[1,2,3] select 1', '2'),
+    ('select rounds the index', '[1,2,3] select 1.6', '3'),
+    ('select at the size gives nil', 'isNil { [1,2,3] select 3 }', 'true'),
+    ('select with a negative index is refused', '{ [1,2,3] select -1 } except__ { }; 7', '7'),
+    ('select behind the end is refused', '{ [1,2,3] select 4 } except__ { }; 7', '7'),
+    ('select true', '[1,2] select true', '2'),
+    ('select false', '[1,2] select false', '1'),
+    ('select true on a short array', '{ [1] select true } except__ { }; 7', '7'),
+    ('select false on an empty array', '{ [] select false } except__ { }; 7', '7'),
 ]
 def search(sqfvm):
     for (name, code, want) in CASES:
